@@ -1,3 +1,6 @@
+#ifndef _GNU_SOURCE
+#define _GNU_SOURCE 1
+#endif
 /* fvmain.c — included at the end of the generated scanner (section 3).
  * Reads the case file, supplies input / wrap / fatal-error / allocation hooks, runs the
  * top-level script and prints the canonical trace on stdout. */
@@ -12,8 +15,9 @@ typedef struct { fv_op_t *ops; int n; } fv_script_t;
 
 static unsigned char *fv_src[FV_MAXSRC]; static long fv_srclen[FV_MAXSRC];
 static long *fv_sched; static int fv_nsched, fv_schedpos;
-static fv_script_t fv_main_script;
+static fv_script_t fv_main_script, fv_eof_default; static int fv_depth = 0;
 static fv_script_t *fv_acts; static int fv_nacts;         /* script of the k-th action execution */
+static fv_script_t *fv_eacts; static int fv_neacts, fv_eact_counter = 0;   /* scripts of <<EOF>> action executions */
 static int fv_act_counter = 0;                             /* number of action executions so far */
 static fv_script_t *fv_cur_script; static int fv_cur_pos;
 static int *fv_wraps; static int fv_nwraps, fv_wrappos;
@@ -21,11 +25,12 @@ static FILE *fv_files[FV_MAXSRC]; static long fv_off[FV_MAXSRC];  /* one stdio s
 static long fv_read_calls = 0, fv_read_bytes = 0;
 static jmp_buf fv_jmp; static int fv_in_run = 0, fv_eof_seen = 0;
 static long fv_max_events = 200000, fv_events = 0;
-int fv_bol_needed = 0, fv_has_lineno = 0, fv_bufsize = 16384, fv_default_rule = 0;
+int fv_bol_needed = 0, fv_has_lineno = 0, fv_bufsize = 16384, fv_default_rule = 0, fv_cont = 0;
 long fv_last_leng = 0, fv_cur_prefix = 0; int fv_more_set = 0;
 static int *fv_readerr; static int fv_nreaderr;           /* read call indices that fail */
+static int *fv_eintr; static int fv_neintr;               /* read call indices interrupted (EINTR) */
 static long fv_alloc_fail_at = -1, fv_alloc_count = 0;    /* k-th allocation request fails */
-static long fv_live = 0, fv_bad_free = 0;
+static long fv_live = 0, fv_bad_free = 0, fv_faults_fired = 0;
 
 static void fv_event(void) {
     fflush(stdout);
@@ -46,8 +51,9 @@ void fv_log_match(int rule, const char *text, long leng, long lineno, int start,
 void fv_log_eof(int sc) {
     fv_event();
     printf("eof %d\n", sc);
-    if (fv_act_counter < fv_nacts) { fv_cur_script = &fv_acts[fv_act_counter]; } else fv_cur_script = NULL;
-    fv_cur_pos = 0; fv_act_counter++;
+    if (fv_eact_counter < fv_neacts && fv_eacts[fv_eact_counter].n > 0) { fv_cur_script = &fv_eacts[fv_eact_counter]; }
+    else fv_cur_script = fv_eof_default.n ? &fv_eof_default : NULL;
+    fv_cur_pos = 0; fv_eact_counter++;
 }
 void fv_log_text(const char *tag, const char *text, long leng) {
     fv_event(); printf("%s ", tag); fv_hex(text, leng); printf("\n");
@@ -84,7 +90,9 @@ void fv_fatal(const char *msg) {
     else if (strstr(msg, "bad buffer")) cls = "badbuffer";
     else if (strstr(msg, "harness:")) cls = msg;
     else if (strstr(msg, "scanner jammed")) cls = "jammed";
+    else if (strstr(msg, "start-condition stack") && strstr(msg, "memory")) cls = "nomem";
     else if (strstr(msg, "end of buffer missed")) cls = "eobmissed";
+    if (!strcmp(cls, "other")) printf("fatal other:%s\n", msg); else
     printf("fatal %s\n", cls); fflush(stdout);
     if (fv_in_run) longjmp(fv_jmp, 1);
     exit(3);
@@ -107,7 +115,7 @@ static int fv_opcode(const char *w) {
         {"create", FV_OP_CREATE}, {"destroy", FV_OP_DESTROY}, {"setlineno", FV_OP_SETLINENO},
         {"getlineno", FV_OP_GETLINENO}, {"newyyin", FV_OP_NEWYYIN}, {"start", FV_OP_START},
         {"atbol", FV_OP_ATBOL}, {"terminate", FV_OP_TERMINATE}, {"flushcur", FV_OP_FLUSHCUR},
-        {"grab", FV_OP_GRAB}, {NULL, 0} };
+        {"grab", FV_OP_GRAB}, {"cont", FV_OP_CONT}, {"include_end", FV_OP_INCLUDE_END}, {NULL, 0} };
     int i; for (i = 0; tab[i].n; i++) if (!strcmp(tab[i].n, w)) return tab[i].op;
     fprintf(stderr, "harness: unknown op %s\n", w); exit(4);
 }
@@ -126,6 +134,7 @@ static void fv_load(const char *path) {
     FILE *f = fopen(path, "r"); char *line = NULL; size_t cap = 0; ssize_t n;
     if (!f) { perror(path); exit(4); }
     fv_acts = (fv_script_t *) calloc(FV_MAXOPS, sizeof(fv_script_t));
+    fv_eacts = (fv_script_t *) calloc(FV_MAXOPS, sizeof(fv_script_t));
     while ((n = getline(&line, &cap, f)) > 0) {
         char *p = line;
         if (!strncmp(p, "src ", 4)) {
@@ -140,9 +149,13 @@ static void fv_load(const char *path) {
             for (tok = strtok(p + 6, " \t\r\n"); tok; tok = strtok(NULL, " \t\r\n")) fv_sched[c++] = atol(tok);
             fv_nsched = c;
         } else if (!strncmp(p, "main ", 5)) fv_parse_ops(p + 5, &fv_main_script);
+        else if (!strncmp(p, "eofact ", 7)) fv_parse_ops(p + 7, &fv_eof_default);
         else if (!strncmp(p, "act ", 4)) {
             int k = (int) strtol(p + 4, &p, 10);
             if (k >= 0 && k < FV_MAXOPS) { fv_parse_ops(p, &fv_acts[k]); if (k + 1 > fv_nacts) fv_nacts = k + 1; }
+        } else if (!strncmp(p, "eact ", 5)) {
+            int k = (int) strtol(p + 5, &p, 10);
+            if (k >= 0 && k < FV_MAXOPS) { fv_parse_ops(p, &fv_eacts[k]); if (k + 1 > fv_neacts) fv_neacts = k + 1; }
         } else if (!strncmp(p, "wrap ", 5)) {
             char *tok; int c = 0; fv_wraps = (int *) malloc(sizeof(int) * (strlen(p) + 1));
             for (tok = strtok(p + 5, " \t\r\n"); tok; tok = strtok(NULL, " \t\r\n")) fv_wraps[c++] = (tok[0] == '-') ? -1 : atoi(tok);
@@ -151,6 +164,10 @@ static void fv_load(const char *path) {
             char *tok; int c = 0; fv_readerr = (int *) malloc(sizeof(int) * (strlen(p) + 1));
             for (tok = strtok(p + 8, " \t\r\n"); tok; tok = strtok(NULL, " \t\r\n")) fv_readerr[c++] = atoi(tok);
             fv_nreaderr = c;
+        } else if (!strncmp(p, "eintr ", 6)) {
+            char *tok; int c = 0; fv_eintr = (int *) malloc(sizeof(int) * (strlen(p) + 1));
+            for (tok = strtok(p + 6, " \t\r\n"); tok; tok = strtok(NULL, " \t\r\n")) fv_eintr[c++] = atoi(tok);
+            fv_neintr = c;
         } else if (!strncmp(p, "allocfail ", 10)) fv_alloc_fail_at = atol(p + 10);
         else if (!strncmp(p, "bolneeded ", 10)) fv_bol_needed = atoi(p + 10);
         else if (!strncmp(p, "haslineno ", 10)) fv_has_lineno = atoi(p + 10);
@@ -160,12 +177,51 @@ static void fv_load(const char *path) {
     free(line); fclose(f);
 }
 
+/* ---- allocation ledger ------------------------------------------------------------------- */
+#define FV_MAXLIVE 4096
+static void *fv_liveptr[FV_MAXLIVE]; static size_t fv_livesz[FV_MAXLIVE];
+static long fv_free_null = 0, fv_realloc_count = 0, fv_alloc_failed = 0;
+static int fv_find(void *p) { int i; for (i = 0; i < FV_MAXLIVE; i++) if (fv_liveptr[i] == p) return i; return -1; }
+void *fv_alloc(size_t n) {
+    void *p; int i;
+    if (fv_alloc_count++ == fv_alloc_fail_at) { fv_alloc_failed++; return NULL; }
+    p = malloc(n ? n : 1);
+    if (!p) return NULL;
+    memset(p, 0xA5, n);                       /* fresh memory is garbage */
+    i = fv_find(NULL); if (i >= 0) { fv_liveptr[i] = p; fv_livesz[i] = n; }
+    fv_live++;
+    return p;
+}
+void *fv_realloc(void *old, size_t n) {
+    void *p; int i;
+    fv_realloc_count++;
+    if (old == NULL) return fv_alloc(n);
+    if (fv_alloc_count++ == fv_alloc_fail_at) { fv_alloc_failed++; return NULL; }
+    i = fv_find(old);
+    if (i < 0) { fv_bad_free++; return NULL; }
+    p = malloc(n ? n : 1);
+    if (!p) return NULL;
+    memset(p, 0xA5, n);
+    memcpy(p, old, fv_livesz[i] < n ? fv_livesz[i] : n);
+    free(old);                                /* always move: stale pointers into the old block show up under ASan */
+    fv_liveptr[i] = p; fv_livesz[i] = n;
+    return p;
+}
+void fv_free(void *p) {
+    int i;
+    if (p == NULL) { fv_free_null++; return; }
+    i = fv_find(p);
+    if (i < 0) { fv_bad_free++; return; }
+    fv_liveptr[i] = NULL; fv_live--;
+    free(p);
+}
+
 /* ---- scanner-facing part (uses the generated scanner's own API) ------------------------ */
 #ifdef FV_BACKEND_R
 #define FV_DEF_ONLY yyscan_t yyscanner
 #define FV_DEF_LAST , void *yyscanner
 #define FV_GUTS struct yyguts_t *yyg = (struct yyguts_t *) yyscanner; (void) yyg;
-static yyscan_t fv_scanner;
+static yyscan_t fv_scanner; static int fv_scanner_alive = 1;
 #define FV_TOP_A1 fv_scanner
 #define FV_TOP_AL , fv_scanner
 #else
@@ -179,11 +235,32 @@ static yyscan_t fv_scanner;
 static yybuffer fv_bufs[FV_MAXBUFS]; static int fv_nbufs = 0;
 static char *fv_scanbuf_mem[FV_MAXBUFS];
 
+#ifdef FV_STDIO
+/* a stdio stream over a source: delivers bytes per the read schedule, fails or is interrupted at
+ * the read-call indices listed in the case file */
+static ssize_t fv_cookie_read(void *cookie, char *buf, size_t size) {
+    long id = (long) cookie, want, left; int k;
+    long call = fv_read_calls++;
+    /* a failed device stays failed: every call from the listed index on reports EIO */
+    for (k = 0; k < fv_nreaderr; k++) if (fv_readerr[k] <= call) { fv_faults_fired++; errno = EIO; return -1; }
+    for (k = 0; k < fv_neintr; k++) if (fv_eintr[k] == call) { fv_faults_fired++; errno = EINTR; return -1; }
+    left = fv_srclen[id] - fv_off[id];
+    want = fv_nsched ? fv_sched[fv_schedpos++ % fv_nsched] : (long) size;
+    if (want < 1) want = 1;
+    if (want > (long) size) want = (long) size;
+    if (want > left) want = left;
+    if (want > 0) memcpy(buf, fv_src[id] + fv_off[id], (size_t) want);
+    fv_off[id] += want; fv_read_bytes += want;
+    return (ssize_t) want;
+}
+#endif
 static FILE *fv_file_of(long id) {
     if (id < 0 || id >= FV_MAXSRC || !fv_src[id]) return NULL;
     if (!fv_files[id]) {
 #ifdef FV_STDIO
-        fv_files[id] = fv_srclen[id] ? fmemopen(fv_src[id], (size_t) fv_srclen[id], "r") : fopen("/dev/null", "r");
+        cookie_io_functions_t io = { fv_cookie_read, NULL, NULL, NULL };
+        fv_files[id] = fopencookie((void *) id, "r", io);
+        if (fv_files[id]) setvbuf(fv_files[id], NULL, _IONBF, 0);
 #else
         fv_files[id] = fopen("/dev/null", "r");   /* identity only: bytes come through fv_read */
 #endif
@@ -196,6 +273,12 @@ static void fv_rewind(long id) {
     if (fv_files[id]) { fclose(fv_files[id]); fv_files[id] = NULL; }
 #endif
 }
+
+#ifdef FV_LEDGER
+void *yyalloc(yy_size_t n FV_DEF_LAST) { return fv_alloc((size_t) n); }
+void *yyrealloc(void *p, yy_size_t n FV_DEF_LAST) { return fv_realloc(p, (size_t) n); }
+void yyfree(void *p FV_DEF_LAST) { fv_free(p); }
+#endif
 
 #ifndef FV_NO_YYWRAP_DEF
 int yywrap(FV_DEF_ONLY) {
@@ -231,8 +314,11 @@ static void fv_buffer_op(int op, long a, long b FV_DEF_LAST) {
         break; }
     case FV_OP_CREATE: fv_rewind(a); fv_reg(yy_create_buffer(fv_file_of(a), (int) b FV_AL)); break;
     case FV_OP_SWITCH: yy_switch_to_buffer(fv_buf(a) FV_AL); break;
-    case FV_OP_PUSHBUF: yypush_buffer_state(fv_buf(a) FV_AL); break;
-    case FV_OP_POPBUF: yypop_buffer_state(FV_A1); break;
+    case FV_OP_PUSHBUF: yypush_buffer_state(fv_buf(a) FV_AL); fv_depth++; break;
+    case FV_OP_POPBUF: yypop_buffer_state(FV_A1); if (fv_depth > 0) fv_depth--; break;
+    case FV_OP_INCLUDE_END:    /* end of an included buffer: pop it and go on, or stop */
+        if (fv_depth > 0) { yypop_buffer_state(FV_A1); fv_depth--; fv_cont = 1; }
+        break;
     case FV_OP_FLUSH: yy_flush_buffer(fv_buf(a) FV_AL); break;
     case FV_OP_FLUSHCUR: yy_flush_buffer(yy_current_buffer() FV_AL); break;
     case FV_OP_DELETE: yy_delete_buffer(fv_buf(a) FV_AL); break;
@@ -249,6 +335,11 @@ static void fv_buffer_op(int op, long a, long b FV_DEF_LAST) {
     }
 }
 
+static void fv_stats(void) {
+    fprintf(stderr, "stats reads=%ld bytes=%ld allocs=%ld live=%ld badfree=%ld reallocs=%ld allocfailed=%ld faultsfired=%ld\n", fv_read_calls, fv_read_bytes,
+            fv_alloc_count, fv_live, fv_bad_free, fv_realloc_count, fv_alloc_failed, fv_faults_fired);
+}
+
 int main(int argc, char **argv) {
     int i;
 #ifdef FV_BACKEND_R
@@ -258,7 +349,7 @@ int main(int argc, char **argv) {
     if (argc < 2) { fprintf(stderr, "usage: scanner case\n"); return 4; }
     fv_load(argv[1]);
 #ifdef FV_BACKEND_R
-    if (yylex_init(&fv_scanner) != 0) { printf("initfail %d\n", errno); return 0; }
+    if (yylex_init(&fv_scanner) != 0) { printf("initfail %d\n", errno); fv_stats(); return 0; }
     yyscanner = fv_scanner; yyg = (struct yyguts_t *) yyscanner;
 #endif
     if (fv_src[0]) yyin = fv_file_of(0);
@@ -266,13 +357,18 @@ int main(int argc, char **argv) {
     if (setjmp(fv_jmp) == 0) {
         for (i = 0; i < fv_main_script.n; i++) {
             fv_op_t o = fv_main_script.ops[i];
+#ifdef FV_BACKEND_R
+            if (!fv_scanner_alive) {
+                if (yylex_init(&fv_scanner) != 0) { printf("initfail %d\n", errno); fv_stats(); return 0; }
+                yyscanner = fv_scanner; yyg = (struct yyguts_t *) yyscanner; fv_scanner_alive = 1;
+            }
+#endif
             switch (o.op) {
             case FV_OP_LEX: if (fv_eof_seen && o.a == 0) break;   /* lex:1 = call again even after end of input */
                 { int r = yylex(FV_TOP_A1); fv_event(); printf("ret %d\n", r); fv_eof_seen = (r == 0); } break;
             case FV_OP_DESTROY: { int r = yylex_destroy(FV_TOP_A1); printf("destroy %d\n", r);
 #ifdef FV_BACKEND_R
-                if (yylex_init(&fv_scanner) != 0) { printf("initfail %d\n", errno); return 0; }
-                yyscanner = fv_scanner; yyg = (struct yyguts_t *) yyscanner;
+                fv_scanner_alive = 0;     /* a new scanner object is made when the script goes on */
 #endif
                 } break;
             case FV_OP_INPUT: { int c_ = yyinput(FV_TOP_A1); fv_log_int("in", c_); } break;
@@ -284,7 +380,6 @@ int main(int argc, char **argv) {
     }
     fv_in_run = 0;
     printf("end\n");
-    fprintf(stderr, "stats reads=%ld bytes=%ld allocs=%ld live=%ld badfree=%ld\n", fv_read_calls, fv_read_bytes,
-            fv_alloc_count, fv_live, fv_bad_free);
+    fv_stats();
     return 0;
 }
